@@ -265,6 +265,12 @@ def check(ctx):
             # the one operation that writes through raw views of the storage: zeroize touches the N elements and nothing beyond them (C19.Z)
             from . import c19
             c19.check_zeroize(ctx, cfg)
+            # heap blocks re-typed as arrays (Box<[T]> / Vec<T> -> Box<GenericArray<T, N>>): the slice view and the destructor of the result cover
+            # N elements, so the hand-over must be reached under len == N - an element count, which a comparison of byte layouts does not give for
+            # zero-sized elements (C15.G), and with equal layouts (C16.P)
+            from . import c15, c16
+            c15.check_guards(ctx, cfg)
+            c16.check_handover(ctx, cfg)
     run_lattice(ctx, ctx.builds["F0"], ctx.tier, "F0")
     if ctx.tier == "thorough":
         from .. import run as R
